@@ -869,11 +869,41 @@ func (p *CodeBuilder) IndexRef(nidx int, src ...ast.Node) *CodeBuilder {
 		Val: &target.IndexExpr{X: args[0].Val, Index: args[1].Val},
 		Src: getSrc(src),
 	}
-	typs, _ := p.getIdxValTypes(typ, true, elemRef.Src)
+	typs, ivKind := p.getIdxValTypes(typ, true, elemRef.Src)
 	elemRef.Type = &refType{typ: typs[1]}
-	// TODO: check index type
+	p.checkIndexType(args[1], typs[0], ivKind)
 	p.stk.Ret(2, elemRef)
 	return p
+}
+
+// checkIndexType checks the index operand of a[i]: the key type for a map, an integer (or a
+// non-negative constant representable as int) otherwise.
+func (p *CodeBuilder) checkIndexType(idx *internal.Elem, key types.Type, ivKind int) {
+	if ivKind == ivTwoValue { // map
+		if err := matchType(p.pkg, idx, key, "map index"); err != nil {
+			panic(err)
+		}
+		return
+	}
+	if ivKind == ivMapStringAny {
+		return
+	}
+	src, pos, end := p.loadExpr(idx.Src)
+	if idx.CVal != nil {
+		v := constant.ToInt(idx.CVal)
+		if v.Kind() != constant.Int {
+			p.panicCodeErrorf(pos, end, "invalid argument: index %s (constant of type %v) must be integer", src, idx.Type)
+		}
+		if constant.Sign(v) < 0 {
+			p.panicCodeErrorf(pos, end, "invalid argument: index %s (constant of type %v) must not be negative", src, idx.Type)
+		}
+		if t, ok := idx.Type.Underlying().(*types.Basic); ok && t.Info()&(types.IsInteger|types.IsUntyped) != 0 {
+			return
+		}
+	} else if t, ok := idx.Type.Underlying().(*types.Basic); ok && t.Info()&types.IsInteger != 0 {
+		return
+	}
+	p.panicCodeErrorf(pos, end, "invalid argument: index %s (type %v) must be integer", src, idx.Type)
 }
 
 const (
